@@ -308,6 +308,22 @@ inline std::string predictions(const basic_src_lambda_f &l, const src_problem &p
   return s;
 }
 
+inline int prob_id(const src_problem *p)
+{
+  return p == &L().cls3 ? 0 : p == &L().cls2 ? 1 : 2;
+}
+inline src_problem &prob_of(unsigned id)
+{
+  return id == 0 ? L().cls3 : id == 1 ? L().cls2 : L().regr;
+}
+
+inline void register_lambda_kinds()
+{
+  // load<T> registers the kinds for T on first use: make the factory know all eight ids
+  { std::istringstream e; (void)serialize::lambda::load<i_mep>(e, L().regr.sset); }
+  { std::istringstream e; (void)serialize::lambda::load<team<i_mep>>(e, L().regr.sset); }
+}
+
 inline std::string lambda_bytes(const basic_src_lambda_f &l, bool *ok = nullptr)
 {
   std::ostringstream o;
